@@ -237,9 +237,11 @@ def parser_model(run):
     lexeme sequence of the family; every input is then parsed by the real parser."""
     # (the input sets are built without unions - TLC's union compares every new element with every old one, which made
     # 19^4 inputs take longer than 40 minutes; measured now, 8 workers: small 3 43 s (1.1 M states), exprB 4 81 s (2.0 M),
-    # exprA 3 45 s (0.8 M), all 3 312 s (8.7 M), small 4 1157 s (30 M), exprB 5 947 s (30 M))
+    # exprA 3 45 s (0.8 M), all 3 312 s (8.7 M), small 4 1157 s (30 M); exprB 5 took 947 s (30 M) with 14 token texts and
+    # ended in an exception inside TLC (util.WrongInvocationException, after an hour, two other model checkers running) with 15 -
+    # the thorough tier stays at depth 4)
     plan = ([("small", 3), ("exprB", 3), ("exprA", 2)] if run.tier == "quick"
-            else [("small", 4), ("exprB", 5), ("all", 3), ("exprA", 3)])
+            else [("small", 4), ("exprB", 4), ("all", 3), ("exprA", 3)])
     sts = run.tlc_many([dict(module="MC_Parser", cfg=PARSER_CFG % (n, ls), name="MC_Parser_%s_%d" % (ls, n), timeout=6000, workers=8)
                         for ls, n in plan], parallel=2)
     for st in sts:
@@ -263,7 +265,7 @@ def c08(run):
                        "precedence table): every sequence of up to 3 (thorough: 4) mode-closed lexemes (text, {{ }} blocks incl. "
                        "malformed ones, @if/@elseif/@else/@end, @each, @for, @insert, @component with slots, @slot, illegal "
                        "characters; thorough: the full alphabet at depth 3) optionally ended by one of 26 constructs cut in the "
-                       "middle, and every sequence of up to 3 (thorough: 5) of 14 expression token texts / up to 2 (3) of 27 (incl. '&&', '||', '#') between "
+                       "middle, and every sequence of up to 3 (thorough: 4) of 15 expression token texts / up to 2 (3) of 27 (incl. '&&', '||', '#') between "
                        "'{{' and '}}' and cut off by the end of the input; TLC proves Termination under fairness without a state "
                        "constraint and checks ProgramOrErrors / PrefixRejected / IllegalRejected / SlotsOwned; every input is "
                        "parsed by the real parser under a watchdog (token types of the expression inputs compared with the "
